@@ -125,6 +125,9 @@ type cfgCase struct {
 	FrozenSet   bool                   `json:"frozen_set"`
 	Identity    map[string]interface{} `json:"identity,omitempty"` // Magic / FoundationAddress overrides (observation only)
 	LowerKeys   bool                   `json:"lower_keys"`
+	// OwnMagic: an unrecognised ActiveNet name together with a Magic that is not the mainnet magic and
+	// nothing else re-defined: a private network by every criterion the file controls (judged for C31).
+	OwnMagic bool `json:"own_magic,omitempty"`
 }
 
 func (cc *cfgCase) id() string {
@@ -261,6 +264,28 @@ func cfgCases(c *kit.Ctx, stream string, extra int) []*cfgCase {
 	for i, cc := range hy {
 		if i%c.Shards == c.Shard {
 			all = append(all, cc)
+		}
+	}
+	// private networks: unrecognised name + own magic, with every override kind over the sweep
+	oi := 0
+	for ni, nm := range cfgNames {
+		if nm.class != "unknown" {
+			continue
+		}
+		for k := 0; k < cfgOverrideKinds; k++ {
+			magic := uint32(1 + r.Intn(1<<31))
+			if magic == mainNetMagic {
+				magic++
+			}
+			cc := &cfgCase{Name: nm.name, NameClass: nm.class, OwnMagic: true, Identity: map[string]interface{}{"Magic": magic}}
+			cfgOverride(k, r, cc)
+			if c.Quick() && (ni+k)%6 != phase {
+				continue
+			}
+			if oi%c.Shards == c.Shard {
+				all = append(all, cc)
+			}
+			oi++
 		}
 	}
 	// seeded extras: random (known or mutated) names with random overrides
@@ -412,6 +437,21 @@ func runConfigPart(c *kit.Ctx, prop string) {
 			sampled[sk] = true
 			c.Sample(map[string]interface{}{"kind": "config", "file": string(cc.file()), "identity": ident, "magic": o.Magic, "genesis": o.GenesisHash,
 				"freeze": o.Freeze, "restriction": o.Restriction, "frozen": o.Frozen})
+		}
+		if cc.OwnMagic {
+			if prop == "C31" {
+				c.Inc("B_own_magic_unknown_name_checked")
+				switch {
+				case o.Magic == mainNetMagic:
+					c.Inc("B_own_magic_not_taken_over") // the file's magic was not applied: nothing to judge
+				case o.Freeze == o.ConstDisabled && o.Restriction == o.ConstDisabled:
+					c.Inc("B_own_magic_disabled_held")
+				default:
+					c.Violate("config:private-network-policy-enabled", fmt.Sprintf("ActiveNet=%q with its own magic %d (not the mainnet magic): CrossChainUTXOFreezeHeight=%d RestrictionHeight=%d instead of disabled; file: %s",
+						cc.Name, o.Magic, o.Freeze, o.Restriction, compact(cc.file())), cc)
+				}
+			}
+			continue
 		}
 		if cc.Identity != nil {
 			// the file re-defines the network identity itself: outside the
